@@ -30,6 +30,9 @@ type Point struct {
 	K     int64  `json:"k"`
 	After bool   `json:"after"`
 	Hold  bool   `json:"hold"`
+	// Drain: the consumer keeps calling the response function until it returns nil (a streaming
+	// transport); otherwise it reads one payload (a single-response transport)
+	Drain bool `json:"drain,omitempty"`
 }
 
 const (
@@ -75,9 +78,20 @@ func runPoint(s *proj.Server, c Case, pt Point) *vfrun.Failure {
 	kit.Journal(map[string]any{"case": c, "point": pt})
 	before := sched.GqlgenIDs("vh/vfrun.", "pgregory.net/rapid.")
 	done := make(chan *proj.Response, 1)
-	go func() { done <- s.Do(ctx, e, c.Query, c.OpName, c.Variables) }()
+	go func() {
+		if pt.Drain {
+			out, _ := s.DoAll(ctx, e, c.Query, c.OpName, c.Variables, 1000)
+			if len(out) > 0 {
+				done <- out[len(out)-1]
+			} else {
+				done <- nil
+			}
+			return
+		}
+		done <- s.Do(ctx, e, c.Query, c.OpName, c.Variables)
+	}()
 	wl := s.P.Options["worker_limit"]
-	what := fmt.Sprintf("[%s worker_limit=%s cancel %s resolver call #%d hold=%v]", s.P.Vec, wl, map[bool]string{false: "before", true: "after"}[pt.After], pt.K, pt.Hold)
+	what := fmt.Sprintf("[%s worker_limit=%s cancel %s resolver call #%d hold=%v drain=%v]", s.P.Vec, wl, map[bool]string{false: "before", true: "after"}[pt.After], pt.K, pt.Hold, pt.Drain)
 	select {
 	case r := <-done:
 		if r != nil && r.HasNext != nil && *r.HasNext {
@@ -132,21 +146,29 @@ func check(c Case) *vfrun.Failure {
 					if k == 0 && (after || hold) {
 						continue
 					}
-					pt := Point{Vec: s.P.Vec, K: k, After: after, Hold: hold}
-					if c.Only != nil && *c.Only != pt {
-						continue
-					}
-					vfrun.Eval()
-					if f := runPoint(s, c, pt); f != nil {
-						if vfrun.IsKnown(f.Key) {
+					for _, drain := range []bool{false, true} {
+						if drain && !c.Defer {
 							continue
 						}
-						return f
-					}
-					if k > 0 {
-						vfrun.Label("cancel-point")
-						if fanout >= 2 || c.Defer {
-							vfrun.NonTrivial(fmt.Sprintf("%s|%d|%s|%d|%v|%v", c.Query, c.PlanSeed, s.P.Vec, k, after, hold))
+						pt := Point{Vec: s.P.Vec, K: k, After: after, Hold: hold, Drain: drain}
+						if c.Only != nil && *c.Only != pt {
+							continue
+						}
+						vfrun.Eval()
+						if f := runPoint(s, c, pt); f != nil {
+							if vfrun.IsKnown(f.Key) {
+								continue
+							}
+							return f
+						}
+						if k > 0 {
+							vfrun.Label("cancel-point")
+							if drain {
+								vfrun.Label("cancel-point:draining-consumer")
+							}
+							if fanout >= 2 || c.Defer {
+								vfrun.NonTrivial(fmt.Sprintf("%s|%d|%s|%d|%v|%v|%v", c.Query, c.PlanSeed, s.P.Vec, k, after, hold, drain))
+							}
 						}
 					}
 				}
